@@ -15,6 +15,7 @@ import RoProps.C05a
 #print axioms Ro.C05a.merge_all_values
 #print axioms Ro.C05a.merge_error
 #print axioms Ro.C05a.merge_complete
+#print axioms Ro.C05a.mergeAll
 #print axioms Ro.C05a.race
 #print axioms Ro.C05a.race_releases
 #print axioms Ro.C05a.race_losers_released
